@@ -168,6 +168,13 @@ def r_ord(chk, P, tier):
     from rules import aggregate_sites
     others = sorted({f for f, _, _, st in aggregate_sites(P, LR) if st["rv"].get("variant") == "Ambiguous" and f.startswith("offset::local::") and "find_local_time_type_from_local" not in f
                      and "lookup_with_dst_transitions" not in f})
+    # a helper extracted after the review is part of the lookups when it is called only from them (the order rule above sees through it)
+    from rules import is_new_helper
+    def only_from_lookups(f):
+        callers = [n for n in P.fns if P.has(n) and n != f and any(f in cs for bi, t, cs in P.calls(n))]
+        base = lambda n: n.split("::{")[0]
+        return is_new_helper(P, f) and bool(callers) and all("find_local_time_type_from_local" in base(n) or "lookup_with_dst_transitions" in base(n) for n in callers)
+    others = [f for f in others if not only_from_lookups(f)]
     chk.expect(not others, "no other builders", "other functions of the local backend build Ambiguous: %s" % others)
 
 
